@@ -202,8 +202,13 @@ func schedSmokeMain(args []string) int {
 		mk := func(name, src, dst string, amount int64) {
 			sch.Go(name, func(ctx context.Context) {
 				st, tx, err := store.BeginTX(ctx, nil)
+				seen := "?"
 				if err == nil {
-					_, err = st.GetBalances(ctx, ledgerstore.BalanceQuery{src: {"USD"}})
+					var bal ledger.Balances
+					bal, err = st.GetBalances(ctx, ledgerstore.BalanceQuery{src: {"USD"}})
+					if err == nil {
+						seen = bal[src]["USD"].String()
+					}
 				}
 				if err == nil {
 					t := ledger.NewTransaction().WithPostings(ledger.NewPosting(src, dst, "USD", big.NewInt(amount)))
@@ -215,7 +220,7 @@ func schedSmokeMain(args []string) int {
 					_ = tx.Rollback()
 				}
 				mu.Lock()
-				outcomes[name] = fmt.Sprint(err)
+				outcomes[name] = fmt.Sprintf("saw %s=%s err=%v", src, seen, err)
 				mu.Unlock()
 			})
 		}
